@@ -72,7 +72,13 @@ def assign(n, e):
 
 
 def block(ss):
-    ss = list(ss)
+    flat = []
+    for x in ss:          # a block is not a statement of the grammar: nested blocks are spliced
+        if x["t"] == "block":
+            flat.extend(x["ss"])
+        else:
+            flat.append(x)
+    ss = flat
     return ss[0] if len(ss) == 1 else {"t": "block", "ss": ss}
 
 
@@ -158,6 +164,8 @@ def pe(n, minp=-1):
         return "(" + s + ")" if minp > 6.5 else s
     if t == "int":
         return str(n["v"])
+    if t == "bigint":
+        return n["txt"]
     if t == "float":
         return fstr(n["v"])
     if t == "bool":
